@@ -31,7 +31,15 @@ class Case:
     dir = property(lambda s: s.p[1:4])
     size = property(lambda s: int(s.p[4]))
     cap = property(lambda s: int(s.p[5]))
-    cut = property(lambda s: s.p[6])
+    cut_e = property(lambda s: s.p[6])
+    cut_g = property(lambda s: s.p[10] if len(s.p) > 10 else s.p[6])
+    cut_p = property(lambda s: s.p[11] if len(s.p) > 11 else s.p[6])
+    # the production cut the model itself samples against (gamma cut for bremsstrahlung, electron cut otherwise)
+    cut = property(lambda s: s.cut_g if s.model in ("sb", "relbrem", "combined", "mubrems") else s.p[6])
+
+    def cut_of(self, pid):
+        """production cut of a particle type (pid codes: 0 e-, 1 e+, 2 gamma)"""
+        return {0: self.cut_e, 1: self.cut_p, 2: self.cut_g}.get(pid)
     variant = property(lambda s: int(s.p[7]))
     mat = property(lambda s: int(s.p[8]) if len(s.p) > 8 else 0)
     elcomp = property(lambda s: int(s.p[9]) if len(s.p) > 9 else 0)
@@ -42,7 +50,7 @@ class Case:
 
     def replay(self, upto=None):
         return {"model": self.model, "tag": self.tag,
-                "params[E,dx,dy,dz,size,cap,cut,variant,mat,elcomp]": self.p,
+                "params[E,dx,dy,dz,size,cap,cut_e,variant,mat,elcomp,cut_g,cut_p]": self.p,
                 "params_hex": [float(x).hex() for x in self.p],
                 "stream": self.u[:upto] if upto else self.u[:40],
                 "stream_hex": [float(x).hex() for x in (self.u[:upto] if upto else self.u[:40])]}
@@ -137,11 +145,28 @@ def gen_alloc(r, needed):
     return cap, cap                         # full
 
 
+def other_cut(r, cut):
+    """cut of another particle type: equal, or different in either direction (mildly / by orders of magnitude)"""
+    c = r.random()
+    if c < 0.2:
+        return cut
+    f = r.choice([1e-3, 1e-2, 0.1, 0.5, 2.0, 10.0, 1e2, 1e3])
+    return min(max(cut * f, 1e-6), 1e4)
+
+
 def mk(model, r, E, needed, cut, variant=0, mat=0, elcomp=0, nstream=48, modelled=False, tag="", p_ext=0.05,
-       allow_zero=True, d=None):
+       allow_zero=True, d=None, cuts=None):
+    """cut = the production cut the model samples against (gamma cut for bremsstrahlung models, electron cut
+    otherwise); the cuts of the other particle types differ from it in both directions"""
     size, cap = gen_alloc(r, needed)
     d = d if d is not None else gen_dir(r)
-    return Case(model, [E] + d + [size, cap, cut, variant, mat, elcomp], gen_u(r, nstream, p_ext, allow_zero),
+    if cuts is not None:
+        ce, cg, cp = cuts
+    elif model in ("sb", "relbrem", "combined", "mubrems"):
+        cg, ce, cp = cut, other_cut(r, cut), other_cut(r, cut)
+    else:
+        ce, cg, cp = cut, other_cut(r, cut), other_cut(r, cut)
+    return Case(model, [E] + d + [size, cap, ce, variant, mat, elcomp, cg, cp], gen_u(r, nstream, p_ext, allow_zero),
                 modelled, tag)
 
 
@@ -247,8 +272,10 @@ def gen_combined(r):
 def gen_livermore(r):
     v = r.choice([0, 1, 2])
     E = gen_energy(r, 1e-5, 1e3, specials=[3.6074e-3, 3.77e-4, 2.96e-4, 1e-3, 1e-2, 100.0, 5e-3])
-    cut = r.choice([1e-5, 1e-4, 3e-4, 1e-3, 1e-2])
-    c = mk("livermore", r, E, 1, cut, variant=v, nstream=200)
+    # electron / gamma cuts around the K (Z=19) transition energies (0.2-3.6 keV), different in both directions
+    ce = r.choice([1e-5, 1e-4, 3e-4, 1e-3, 3e-3, 1e-2])
+    cg = r.choice([1e-5, 1e-4, 3e-4, 1e-3, 3e-3, 1e-2])
+    c = mk("livermore", r, E, 1, ce, variant=v, nstream=200, cuts=(ce, cg, r.choice([ce, 1e-2, 1e-5])))
     # room for relaxation products (count = 1 + max_secondaries) in most cases
     if r.random() < 0.8:
         c.p[4], c.p[5] = 0.0, 64.0
@@ -447,6 +474,13 @@ def run_model(ctx, cases, impl):
 # ---------------------------------------------------------------------------
 # comparison
 
+def _at_tmax(c, a):
+    if not a["secs"] or a["secs"][0][0] != 0:
+        return False
+    tmax = (c.E if c.variant == 1 else c.E / 2) if c.model == "mb" else mu_tmax(c.E)
+    return abs(a["secs"][0][1] - tmax) <= 1e-10 * tmax
+
+
 def agree(c, a, b):
     """a = implementation, b = model"""
     if a["status"] != b["status"]:
@@ -468,10 +502,18 @@ def agree(c, a, b):
         # the direction of a particle left with (numerically) zero energy is the
         # normalised difference of two equal momenta: ill-conditioned, not compared
         stopped = c.model in ("mb", "muhad_bb", "muhad_mubb", "muhad_bragg") and abs(a["E"]) <= 1e-9 * c.E
-        if not stopped and not close(a["dir"], b["dir"], 1e-9, 1e-9):
+        if not stopped and not close(a["dir"], b["dir"], 1e-9, 1e-9 if c.model not in (
+                "mb", "muhad_bb", "muhad_mubb", "muhad_bragg") else 1e-6 if _at_tmax(c, a) else 1e-9):
             return False
+    # at the kinematic limit T_e = Tmax, cos(theta) = 1 - O(eps) and sin(theta) = sqrt(1 - cos^2) is
+    # determined by rounding alone (cf. the NaN known finding): directions compared to 1e-6 there
+    datol = 1e-9
+    if c.model in ("mb", "muhad_bb", "muhad_mubb", "muhad_bragg") and a["secs"] and a["secs"][0][0] == 0:
+        tmax = (c.E if c.variant == 1 else c.E / 2) if c.model == "mb" else mu_tmax(c.E)
+        if abs(a["secs"][0][1] - tmax) <= 1e-10 * tmax:
+            datol = 1e-6
     for sa, sb in zip(a["secs"], b["secs"]):
-        if sa[0] != sb[0] or not close(sa[1], sb[1], 1e-9, eatol) or not close(sa[2], sb[2], 1e-9, 1e-9):
+        if sa[0] != sb[0] or not close(sa[1], sb[1], 1e-9, eatol) or not close(sa[2], sb[2], 1e-9, datol):
             return False
     return True
 
@@ -515,17 +557,21 @@ ALLOWED_SEC = {"kn": {0}, "eplusgg": {2}, "mb": {0}, "bh": {0, 1}, "muhad_bb": {
 MOM_TOL = 1e-7
 
 
-def threshold(c, pid):
-    """the model's own production threshold for a secondary of type pid (None = no lower bound beyond 0)"""
+def threshold(c, i, pid):
+    """production threshold that secondary number i of particle type pid must respect: the cut OF ITS OWN
+    PARTICLE TYPE for every model that applies cuts, the model's own constant where it has one; None = no bound"""
     m = c.model
     if m == "kn":
-        return 1e-4
-    if m in ("mb", "muhad_bb", "muhad_mubb"):
-        return c.cut
-    if m in ("mubrems", "sb", "relbrem", "combined"):
-        return c.cut
+        return 1e-4                      # KleinNishinaInteractor::secondary_cutoff()
+    if m in ("mb", "muhad_bb", "muhad_mubb", "mubrems", "sb", "relbrem", "combined"):
+        return c.cut_of(pid)             # delta electron >= electron cut, brems photon >= gamma cut
+    if m == "muhad_bragg":
+        low = 5e-3 if c.variant == 0 else 2.5e-4
+        return min(c.cut_e, low * MUMASS / PROTON_MEV) if pid == 0 else c.cut_of(pid)
     if m == "livermore":
-        return None   # photoelectron: no cut; relaxation products checked separately
+        # photoelectron (first secondary): no cut; relaxation products: Auger e- >= electron cut,
+        # fluorescence photon >= gamma cut
+        return None if i == 0 else c.cut_of(pid)
     return None
 
 
@@ -623,9 +669,10 @@ def oracle(c, a):
             bad.append(("secondary %d has negative energy %.3g" % (i, e), None))
         if abs(math.sqrt(nsq(d)) - 1) > 1e-12:
             bad.append(("secondary %d direction is not a unit vector: %r" % (i, d), None))
-        th = threshold(c, pid)
+        th = threshold(c, i, pid)
         if th is not None and e < th * (1 - 1e-12):
-            bad.append(("secondary %d energy %.17g below the production threshold %.17g" % (i, e, th), None))
+            bad.append(("secondary %d (pid %d) energy %.17g below the production threshold %.17g of its particle type"
+                        % (i, pid, e, th), None))
     # momentum balance where all products are returned
     if m in MOMENTUM_MODELS and not any(s[0] < 0 for s in a["secs"]):
         def pvec(pid, e, d):
